@@ -283,10 +283,11 @@ def install_audit():
 # runners
 
 class Res:
-    __slots__ = ("exit", "out", "err", "exc", "tb")
+    __slots__ = ("exit", "out", "err", "exc", "tb", "audit", "opens")
 
-    def __init__(self, exit, out, err, exc=None, tb=None):
+    def __init__(self, exit, out, err, exc=None, tb=None, audit=None, opens=None):
         self.exit, self.out, self.err, self.exc, self.tb = exit, out, err, exc, tb
+        self.audit, self.opens = audit, opens   # filled by the subprocess runner only
 
     def as_dict(self):
         return {"exit": self.exit, "out": self.out, "err": self.err, "exc": self.exc}
@@ -332,10 +333,10 @@ def run_inproc(name, args, now=None, cwd=None, step=0.0):
     return Res(r.exit_code, r.stdout, r.stderr, exc, tb)
 
 
-def run_subproc(name, args, now=None, cwd=None, step=0.0, tz=None, order=None, hashseed="0"):
+def run_subproc(name, args, now=None, cwd=None, step=0.0, tz=None, order=None, hashseed="0", audit_prefix=None):
     """run one command in a fresh interpreter with the clock/host (and optional listing) seams"""
     spec = {"cmd": name, "args": [str(a) for a in args], "now": NOW[0] if now is None else now, "step": step,
-            "order": order}
+            "order": order, "audit_prefix": audit_prefix}
     env = dict(os.environ)
     env["PYTHONHASHSEED"] = str(hashseed)
     env["TZ"] = tz or os.environ.get("TZ", "UTC")
@@ -344,7 +345,8 @@ def run_subproc(name, args, now=None, cwd=None, step=0.0, tz=None, order=None, h
                        cwd=cwd or VERIF, env=env)
     try:
         j = json.loads(p.stdout.rsplit("\n@@RES@@", 1)[1])
-        return Res(j["exit"], j["out"], j["err"], j["exc"], j.get("tb"))
+        return Res(j["exit"], j["out"], j["err"], j["exc"], j.get("tb"),
+                   [tuple(e) for e in j["audit"]] if j.get("audit") is not None else None, j.get("opens"))
     except Exception:
         return Res(-99, p.stdout, p.stderr, "HARNESS: subprocess runner failed")
 
@@ -359,5 +361,6 @@ class Runner:
         if self.mode == "in":
             kw.pop("tz", None)
             kw.pop("order", None)
+            kw.pop("audit_prefix", None)
             return run_inproc(name, args, **kw)
         return run_subproc(name, args, **kw)
